@@ -65,7 +65,8 @@ def do_op(op):
         if kind == "mr":
             p = ColorPair(op[1], op[2], op[3]); r = p.make_readable(mode=op[4], very_readable=op[5]); return ["mr", repr(r)]
         if kind == "bulk":
-            return ["bulk", repr(make_readable_bulk(op[1], mode=op[2], very_readable=op[3]))]
+            # canonical text: tuples and lists alike (the fresh interpreter receives the operation through JSON), NaN-safe
+            return ["bulk", json.dumps(make_readable_bulk(op[1], mode=op[2], very_readable=op[3]), default=list)]
         if kind == "cli":
             import cli_workers
             r = cli_workers.run_cli(({"h.css": op[1].encode()}, "h.css", op[2]))
@@ -94,6 +95,18 @@ def rand_op(rng, pairs):
         for _ in range(rng.randrange(0, 4)):
             t2, b2 = rng.choice(pairs)
             items.append((spell(rng, t2, rng.choice(OPAQUE_KINDS))[0], spell(rng, b2, rng.choice(OPAQUE_KINDS))[0]))
+        if rng.random() < 0.3:
+            # neighbours that are equal as Python values (1 == 1.0 == True) but different colours, and the same colours at
+            # the other text size: a result must not depend on what else is in the list
+            tw = rng.choice([(1, 1, 1), (1, 0, 0), (0, 1, 0), (1, 1, 1, 1), (0, 0, 0)])
+            for v in rng.sample([tw, tuple(float(x) for x in tw), tuple(bool(x) for x in tw)], 2):
+                items.insert(rng.randrange(len(items) + 1), (v, "#000000"))
+        if items and rng.random() < 0.5:
+            # a large-text entry somewhere (often ahead of the two-element entries, which must not inherit its flag)
+            it = rng.choice(items)
+            items.insert(rng.choice([0, 0, rng.randrange(len(items) + 1)]), (it[0], it[1], True))
+            if rng.random() < 0.5:
+                items.append(("#888888", "#ffffff"))      # 3.54:1 - readable only as large text
         return ("bulk", items, rng.choice([0, 1, 2]), bool(rng.randrange(2)))
     import gen_css
     return ("cli", gen_css.stylesheet(rng), ["--mode", str(rng.choice([0, 1, 2]))])
@@ -169,6 +182,26 @@ def check(run):
             if json.loads(json.dumps(got, default=list)) != want:
                 run.violation("the result of an operation depends on the history of earlier calls (differs from a fresh interpreter)", case,
                               details={"after_history": repr(got)[:400], "fresh_interpreter": repr(want)[:400]})
+    # "at any position in a bulk list": an entry's result inside a list = its result as a list of its own
+    from cm_colors import make_readable_bulk
+    for _ in range(36 if q else 1500):
+        op = rand_op(run.rng, pairs)
+        while op[0] != "bulk" or not op[1]:
+            op = rand_op(run.rng, pairs)
+        _, items, mode, very = op
+        try:
+            whole = make_readable_bulk(items, mode=mode, very_readable=very)
+        except Exception as e:  # noqa
+            run.violation("make_readable_bulk raised", {"items": repr(items), "mode": mode, "very_readable": very}, details={"exception": repr(e)[:200]})
+            continue
+        run.count(("bulk-position", repr(items), mode, very))
+        for k, ent in enumerate(items):
+            alone = make_readable_bulk([ent], mode=mode, very_readable=very)
+            if repr(whole[k:k + 1]) != repr(alone):
+                run.violation("the result for an entry depends on the other entries of the bulk list", {"items": repr(items), "position": k, "mode": mode, "very_readable": very},
+                              details={"in_list": repr(whole[k]), "alone": repr(alone[0]) if alone else None})
+                break
+    run.hit("bulk_position.checked", 36 if q else 1500)
     # make_readable does not alter the pair; repeated calls agree
     for _ in range(60 if q else 1500):
         t, b = run.rng.choice(pairs)
